@@ -16,6 +16,92 @@ pub enum FuzzingStrategy
 	Tokens,
 }
 
+#[cfg(feature = "penne_verif")]
+thread_local! {
+	/// Seed installed by `fill_to_capacity_with_tokens_seeded` for the next
+	/// call of `fill_to_capacity_with_tokens` on this thread.
+	static VERIF_PENDING_SEED: std::cell::Cell<Option<u64>> =
+		const { std::cell::Cell::new(None) };
+}
+
+/// Either the thread-local generator that `fill_to_capacity_with_tokens`
+/// created itself, or a deterministic generator built from a pending seed.
+#[cfg(feature = "penne_verif")]
+enum VerifRng<'a>
+{
+	Thread(&'a mut rand::rngs::ThreadRng),
+	Seeded(rand::rngs::StdRng),
+}
+
+#[cfg(feature = "penne_verif")]
+impl rand::TryRng for VerifRng<'_>
+{
+	type Error = std::convert::Infallible;
+
+	fn try_next_u32(&mut self) -> Result<u32, Self::Error>
+	{
+		match self
+		{
+			VerifRng::Thread(rng) => rand::TryRng::try_next_u32(&mut **rng),
+			VerifRng::Seeded(rng) => rand::TryRng::try_next_u32(rng),
+		}
+	}
+
+	fn try_next_u64(&mut self) -> Result<u64, Self::Error>
+	{
+		match self
+		{
+			VerifRng::Thread(rng) => rand::TryRng::try_next_u64(&mut **rng),
+			VerifRng::Seeded(rng) => rand::TryRng::try_next_u64(rng),
+		}
+	}
+
+	fn try_fill_bytes(&mut self, dst: &mut [u8]) -> Result<(), Self::Error>
+	{
+		match self
+		{
+			VerifRng::Thread(rng) =>
+			{
+				rand::TryRng::try_fill_bytes(&mut **rng, dst)
+			}
+			VerifRng::Seeded(rng) => rand::TryRng::try_fill_bytes(rng, dst),
+		}
+	}
+}
+
+/// Consume the pending seed (if any); without one keep using `thread_rng`.
+#[cfg(feature = "penne_verif")]
+fn verif_rng(thread_rng: &mut rand::rngs::ThreadRng) -> VerifRng<'_>
+{
+	match VERIF_PENDING_SEED.with(|cell| cell.take())
+	{
+		Some(seed) =>
+		{
+			let seeded: rand::rngs::StdRng =
+				rand::SeedableRng::seed_from_u64(seed);
+			VerifRng::Seeded(seeded)
+		}
+		None => VerifRng::Thread(thread_rng),
+	}
+}
+
+/// Same as `fill_to_capacity_with_tokens`, but all random choices are drawn
+/// from a deterministic generator seeded with `seed`:
+/// the same arguments (and buffer contents and capacity) give the same bytes.
+#[cfg(feature = "penne_verif")]
+pub fn fill_to_capacity_with_tokens_seeded(
+	seed: u64,
+	percentage: usize,
+	buffer: &mut String,
+	num_errors: usize,
+) -> Result<(), anyhow::Error>
+{
+	VERIF_PENDING_SEED.with(|cell| cell.set(Some(seed)));
+	let result = fill_to_capacity_with_tokens(percentage, buffer, num_errors);
+	VERIF_PENDING_SEED.with(|cell| cell.set(None));
+	result
+}
+
 /// Fill up a buffer to a given percentage of its capacity
 /// using weighted-random tokens.
 ///
@@ -27,6 +113,8 @@ pub fn fill_to_capacity_with_tokens(
 ) -> Result<(), anyhow::Error>
 {
 	let mut rng = rand::rng();
+	#[cfg(feature = "penne_verif")]
+	let mut rng = verif_rng(&mut rng);
 
 	let base_token_dist = WeightedIndex::new({
 		let mut weights = [0; 256];
